@@ -124,3 +124,18 @@ package har
 //@   noframe
 //@   ensures[skip-logging-leaves-log-and-message-untouched] skipMarked(res.Request) ==> result == nil && res.Body == old(res.Body) &&
 //@        (forall e *Entry :: e.Response == old(e.Response) && e.Time == old(e.Time))
+
+// ---------------------------------------------------------------------------------------------
+// C15: post-data capture parses the SNAPSHOT of the body. After SnapshotRequest the request carries a fresh body that
+// will be forwarded; every consumer in postData reads from the snapshot's own reader, never from req.Body.
+//@ func postData
+//@   serves C15
+//@   requires req != nil && req.Header != nil && req.URL != nil
+//@   modifies http.Request.Body, messageview.MessageView.*, mvReadSrc, mvReadData, mvReaderData, mvReader, mvNopSrc, mvNop
+//@   noframe
+//@   loop 0 invariant true
+//@   loop 1 invariant true
+//@   loop 2 invariant true
+//@   at call 0 of NewReader before assert[multipart-parser-reads-the-snapshot-not-the-forwarded-body] arg0 == br
+//@   at call 1 of ReadAll before assert[form-parser-reads-the-snapshot-not-the-forwarded-body] arg0 == br
+//@   at call 2 of ReadAll before assert[text-capture-reads-the-snapshot-not-the-forwarded-body] arg0 == br
